@@ -39,6 +39,7 @@ const std::vector<int> &corpus_by_len(int len);  // instruction lines with that 
 int corpus_ret();
 int corpus_flags(const std::string &text);  // flags by text (0 if unknown)
 int corpus_dropped();                        // lines not admitted on this tree
+bool corpus_collapsed();                     // too few lines admitted: nothing can be checked
 int corpus_unsafe();                         // lines marked exec-safe in the text that do not behave so when executed
 
 }  // namespace sim
